@@ -141,6 +141,20 @@ KEYED = {
     'neg-and-str': lambda: {-1: 0, '-2': 0, 'a': {'b': 1, 3: 2}},
 }
 
+FIELDS_CODE = 70004
+FIELDS_MESSAGE = 'probe field errors'
+
+
+class ProbeFieldErrors(pjrpc.exceptions.JsonRpcError):
+    """an application error that is also the collection of its entries (len() = number of field errors): with no entry it is a
+    perfectly good error object whose truth value is False"""
+    code = FIELDS_CODE
+    message = FIELDS_MESSAGE
+
+    def __len__(self):
+        return len(self.data.get('entries', ())) if isinstance(self.data, dict) else 0
+
+
 CTOR_CODE = 70002
 CTOR_MESSAGE = 'probe ctor error'
 
@@ -581,6 +595,12 @@ def make_methods(log: Log, is_async: bool) -> Dict[str, Callable[..., Any]]:
 
     fac['keyed'] = a_keyed if is_async else keyed
 
+    def fielderr(entries=()):
+        log.calls.append(('fielderr', (entries,), {}))
+        raise ProbeFieldErrors(data={'entries': list(entries) if isinstance(entries, (list, tuple)) else [entries]})
+
+    fac['fielderr'] = fielderr
+
     stale_error = ProbeStaleError()     # ONE long-lived error object (a module-level constant, in real life)
 
     def stale(data=ABSENT, peek=True):
@@ -704,7 +724,7 @@ def make_broken_view(log: Log, is_async: bool):
 METHOD_NAMES = ('js_checked', 'js_loose', 'slowfail', 'byid', 'wrapped', 'whoami', 'ctxp', 'slow', 'fac1', 'fac2', 'ok', 'noargs', 'echo', 'kwonly', 'rpcerr', 'typed', 'boom', 'ctxm', 'view.vm', 'typedctor', 'raiselib', 'pd_pos', '_under',
                 'ns._dotted', 'cowrapped', 'js_draft4', 'window', 'mutate', 'broken.vm', 'odd_defaults', 'tc_only',
                 'pd_strip', 'view.cm', 'view.sm', 'cnt.bump', 'pd_even', 'js_list', 'ctxm_plain', 'pd_span', 'view.note', 'pd_asis', 'rpc.ping', 'js_ref',
-                'keyed', 'stale', 'users.create', 'orders.create', 'pd_d_int', 'pd_d_bool', 'pd_d_float')
+                'keyed', 'stale', 'users.create', 'orders.create', 'pd_d_int', 'pd_d_bool', 'pd_d_float', 'fielderr')
 
 
 def build_registry(log: Log, coroutines: bool) -> 'pjrpc.server.MethodRegistry':
